@@ -6,6 +6,10 @@ NI = ("g_state->current_max_respond >= 0 && g_state->current_max_respond <= 48 &
 UNITS = [
     Unit(name="C05.seqnum", src=SRC, defines=["VP_H_SEQNUM"], functions=["bidib_get_and_incr_seqnum"], props=["C05"], no_dfcc=True,
          extra_flags=["--nondet-static"], covers=1, min_obligations=3, note="all 256 counter values"),
+    Unit(name="C05.seq_accessors", src=SRC, defines=["VP_H_SEQ_ACCESSORS"], functions=["bidib_node_state_get_and_incr_send_seqnum", "bidib_node_state_get_and_incr_receive_seqnum", "bidib_node_state_set_receive_seqnum", "bidib_get_and_incr_seqnum", "bidib_node_query"],
+         props=["C05"], no_dfcc=True, extra_flags=["--nondet-static", "--unwind", "6"], covers=3, min_obligations=6, timeout=300,
+         remove_bodies=["bidib_node_try_send", "bidib_node_try_queued_messages", "bidib_node_state_update", "bidib_node_update_stall", "bidib_node_state_table_reset", "bidib_node_state_table_free", "bidib_node_stall_ready"],
+         note="arbitrary node state; loop-free: complete"),
     Unit(name="C03.try_send", src=SRC, defines=["VP_H_TRY_SEND"], functions=["bidib_node_try_send", "bidib_node_query", "bidib_node_state_add_response", "bidib_node_state_add_message"],
          props=["C03", "C04", "C05"], replace=["bidib_node_stall_ready", "bidib_add_to_buffer", "bidib_flush"],
          unwindset={"vp_memcpy_w.0": 5}, unwind_reason="4-byte address copy in the memcpy contract stub",
